@@ -49,7 +49,8 @@ def docs_tables():
 def build(kind, comps, sid="DSD1"):
     from pysdmx.model import Component, Components, Concept
     from pysdmx.model.dataflow import Dataflow, DataStructureDefinition, Schema
-    cs = Components([Component(id=cid, required=(role.name == "DIMENSION"), role=role, concept=Concept(id=cid), local_dtype=dt) for cid, role, dt in comps])
+    cs = Components([Component(id=cid, required=(role.name == "DIMENSION"), role=role, concept=Concept(id=cid), local_dtype=dt,
+                               **({"attachment_level": "O"} if role.name == "ATTRIBUTE" else {})) for cid, role, dt in comps])
     if kind == "schema":
         return Schema(context="datastructure", agency="MD", id=sid, version="1.0", components=cs)
     dsd = DataStructureDefinition(id=sid, agency="MD", version="1.0", components=cs, name=sid)
